@@ -274,4 +274,42 @@ Proof.
     pose proof (bot_lt_lcen g W 1 ltac:(lia)) as C. qc_lra. }
   rewrite Q. rewrite thick_list, dx_list, dy_list. apply spacings_2d_ok. exact GU.
 Qed.
+
+(** the recorded defect "2-D grid, no atmosphere blocks, origin column holds a single block": the code
+    as it stands raises IndexError *)
+Lemma spacings_2d_defect : (nx g = 1%nat \/ ny g = 1%nat) -> has g (nz g - 1) 0 0 = false -> (2 <= gatm g)%nat ->
+  spacings_2d K keqb false GG (blk obc) sp1 sp2 (gdz g) = Raise IndexError.
+Proof.
+  intros E Hh A. pose proof (wf_nz g W) as NZ. pose proof (wf_nx g W) as NX. pose proof (wf_ny g W) as NY.
+  assert (LZ : (length (gdz g) =? 0)%nat = false) by (apply Nat.eqb_neq; unfold nz in NZ; lia).
+  pose proof (own3_defect Hh A) as O3.
+  unfold spacings_2d, sp1, sp2. rewrite LZ.
+  destruct (Nat.eqb_spec (nx g) 1) as [E1|E1]; destruct (Nat.eqb_spec (ny g) 1) as [E2|E2]; try lia.
+  - assert (LY : (length (gdy g) =? 0)%nat = false) by (apply Nat.eqb_neq; unfold ny in NY; lia).
+    rewrite LY. cbn [length Nat.eqb Nat.add fold_left bind]. rewrite (own2_code ltac:(lia)). cbn [bind]. rewrite O3. reflexivity.
+  - assert (LX : (length (gdx g) =? 0)%nat = false) by (apply Nat.eqb_neq; unfold nx in NX; lia).
+    rewrite LX. cbn [length Nat.eqb Nat.add fold_left bind]. rewrite (own1_code ltac:(lia)). cbn [bind]. rewrite O3. reflexivity.
+Qed.
+Lemma block_spacings_defect (i0 j0 : nat) : (i0 < nx g)%nat -> (j0 < ny g)%nat -> goz g <= gsurf g i0 j0 ->
+  (nx g = 1%nat \/ ny g = 1%nat) -> has g (nz g - 1) 0 0 = false -> (2 <= gatm g)%nat ->
+  block_spacings K keqb false GG (blk obc) av = Raise IndexError.
+Proof.
+  intros Hi0 Hj0 Hs0 E Hh A. pose proof (wf_nz g W) as NZ. pose proof (wf_nx g W) as NX. pose proof (wf_ny g W) as NY.
+  unfold block_spacings.
+  rewrite (HY track1_start (Some av) (or_intror eq_refl) 0%nat ltac:(lia) (fuel_of K GG) (HY fuel_nx)). cbn [bind].
+  rewrite (HY track2_start (Some av) (or_intror eq_refl) 0%nat ltac:(lia) (fuel_of K GG) (HY fuel_ny)). cbn [bind].
+  destruct (topmost i0 j0 Hi0 Hj0 Hs0) as [i [j [Hi [Hj [Hs ET]]]]]. rewrite ET.
+  rewrite (HY track3_down_start i j Hi Hj (fuel_of K GG) (HY fuel_nz i j Hi Hj Hs) Hs). cbn [bind fst snd].
+  set (L := map blk (map (fun k => Cell k i j) (seq 1 (nz g)))).
+  assert (EL : exists rest, L = blk (Cell 1 i j) :: rest).
+  { unfold L. destruct (nz g) as [|m]; [lia|]. cbn [seq map]. eexists. reflexivity. }
+  assert (LL : last_of L = Some (blk (Cell (nz g) i j))).
+  { unfold L. rewrite map_map. destruct (nz g) as [|m] eqn:EM; [lia|]. rewrite last_of_map_seq. replace (1 + m)%nat with (S m) by lia. reflexivity. }
+  destruct EL as [rest EL]. rewrite LL, EL. rewrite (cen_z_rock 1 i j ltac:(lia)), (cen_z_rock (nz g) i j ltac:(lia)). cbn [bind].
+  assert (Q : qlt (zc g 1 i j) (zc g (nz g) i j) = false).
+  { rewrite (HY zc1_reach i j Hi Hj Hs). rewrite (HY zc_bottom i j Hi Hj).
+    pose proof (lcen_lt_top g W (nz g) ltac:(lia)) as A'. pose proof (top_le_bot g W 1 (nz g) ltac:(lia) ltac:(lia)) as B.
+    pose proof (bot_lt_lcen g W 1 ltac:(lia)) as C. qc_lra. }
+  rewrite Q. rewrite thick_list, dx_list, dy_list. apply spacings_2d_defect; assumption.
+Qed.
 End Sp.
